@@ -355,7 +355,13 @@ static void emit_dkg_view_records(const Scn &S, const Group &G, const RunResult 
 	}
 	std::string Cm, Cs, As;
 	for (size_t j = 0; j < n; j++) { Cm += (j ? ";" : "") + cik[j][j]; Cs += (j ? ";" : "") + compl_[j]; As += (j ? ";" : "") + ans[j]; }
+	// for larger n only two views per scenario (the extracted model is slow): the first honest party and the first victim of a scripted deviation
+	std::set<size_t> viewers;
+	if (n <= 4) viewers.insert(H.begin(), H.end());
+	else { viewers.insert(H[0]); for (auto &kv : S.scripts) for (size_t v : kv.second.wrong) if (viewers.size() < 2 && std::find(H.begin(), H.end(), v) != H.end()) viewers.insert(v);
+	       if (viewers.size() < 2 && H.size() > 1) viewers.insert(H[1]); }
 	for (size_t i : H) {
+		if (!viewers.count(i)) continue;
 		std::string pairs;
 		for (size_t j = 0; j < n; j++) {
 			size_t k = row[j][i].find(':'); Z sv(row[j][i].substr(0, k)), tv(row[j][i].substr(k + 1)); bool none = false;
